@@ -353,13 +353,17 @@ func (e StdEng) denseConcat(a DenseTensor, axis int, Ts []DenseTensor) (DenseTen
 		var vmask, Tmask []bool
 		vmask = v.mask
 		v.mask = nil
-		if mt, ok := T.(MaskedTensor); ok && mt.IsMasked() {
+		mt, masked := T.(MaskedTensor)
+		if masked = masked && mt.IsMasked(); masked {
 			Tmask = mt.Mask()
 			mt.SetMask(nil)
-
 		}
 
-		if err = assignArray(v, T); err != nil {
+		err = assignArray(v, T)
+		if masked {
+			mt.SetMask(Tmask) // the operand keeps its mask
+		}
+		if err != nil {
 			return nil, errors.Wrap(err, "Unable to assignArray in denseConcat")
 		}
 		// if it's a masked tensor, we copy the mask as well
@@ -373,7 +377,6 @@ func (e StdEng) denseConcat(a DenseTensor, axis int, Ts []DenseTensor) (DenseTen
 				copy(vmask, Tmask)
 				v.SetMask(vmask)
 			}
-			// mt.SetMask(Tmask)
 		}
 
 		start = end
